@@ -261,6 +261,7 @@ CHECKS = {
         "tests": [
             {"pkg": "clientx", "run": "^TestC20_Mixed$", "quick": 1200, "thorough": 30000},
             {"pkg": "clientx", "run": "^TestC20_FanOut$", "quick": 1200, "thorough": 30000},
+            {"pkg": "clientx", "run": "^TestC20_SlowWrites$", "quick": 240, "thorough": 8000},
         ],
         "rule": "the real public client (oxia.NewAsyncClient, unmodified) over loopback gRPC against harness-owned fake servers "
                 "(1 bootstrap + 1-3 leaders per case, 1-6 shards): 5-80 generated calls mixing Put / Delete / DeleteRange / Get with "
@@ -271,7 +272,12 @@ CHECKS = {
                 "once with the answer of that very operation; operations of a failed batch (and only they) get that failure; "
                 "batches respect the count and byte limits unless a single oversized call; list = multiset union, range-scan = "
                 "sorted merge in the documented key order, comparison get = best candidate across shards; no panic. "
-                "Non-trivial: >=2 batches on one shard with a failure in one, or a multi-shard read with >=1 failing shard.",
+                "Non-trivial: >=2 batches on one shard with a failure in one, or a multi-shard read with >=1 failing shard. "
+                "Third generator (TestC20_SlowWrites): request timeout 150 ms, 1-2 shards, mostly writes; the server holds the "
+                "(correct) answer of one or two write batches for 170-260 ms while the stream stays alive and answers the "
+                "batches behind it in order; following calls are issued at once, just after the timeout, or after the stall. "
+                "Any call may end with the timeout; a call that completes successfully must carry its own answer, exactly "
+                "once. Non-trivial there: a write timed out on a live stream and a later write on that stream was answered.",
         "assumptions": ["bounded waits: a call that does not complete within the bound makes the case inconclusive",
                         "a streaming call counts as completed once it delivered an error item"],
     },
